@@ -307,13 +307,15 @@ PROPS["C06"] = dict(
     level="other",
     explanation=("Kani Hoare triple on the real Sequential::evaluate with a call-logging objective function at population sizes 0, 1, 3: "
                  "every individual evaluated exactly once, in order, solutions untouched, objective = f(solution)."),
-    verus=[], kani=[dict(files=["contracts/C06/c06.rs"], map_shim=True,
+    verus=[dict(name="require", template="contracts/C06/require.vrs",
+                expect=["<PopulationEvaluator<I> as Component<P>>::require", "<PopulationEvaluator<I> as Component<P>>::init"])],
+    kani=[dict(files=["contracts/C06/c06.rs"], map_shim=True,
                          map_shim_files=["src/state/registry/mod.rs", "src/state/registry/entry.rs", "src/state/registry/multi.rs"])],
     native=[dict(files=["contracts/C06/c06_native.rs"],
                  harnesses={"c06_native_population_evaluator": dict(anchor="PopulationEvaluator::execute",
                             bound="BOUNDED STAND-IN, native run: population sizes 0..4 x every evaluated/unevaluated mix x {sequential, parallel} x 1..2 steps; missing-evaluator run")})],
     min_obligations={"quick": 4, "thorough": 4},
     uncovered=["PopulationEvaluator::execute incl. the evaluation COUNTER (closure capturing &mut population: Verus rejects; State + eyre: Kani cannot)",
-               "require (missing evaluator is an error before anything executes)", "Parallel evaluator (threads)",
+               "Parallel evaluator (threads)",
                "whole-run equality 'reported evaluations = objective-function invocations'", "firefly update's own counting"],
 )
